@@ -68,6 +68,17 @@ def _a_callable_value():
   return "called"
 
 
+def show(v):
+  """ repr without addresses (event logs and details must be the same in
+  every process). """
+  if isinstance(v, (list, tuple)):
+    body = ", ".join(show(x) for x in v)
+    return "[%s]" % body if isinstance(v, list) else "(%s)" % body
+  if callable(v):
+    return "<callable %s>" % getattr(v, "__name__", type(v).__name__)
+  return repr(v)
+
+
 class SeqProto(object):
   """ Iterable only through the old sequence protocol (no __iter__). """
 
@@ -714,7 +725,7 @@ class C16(Property):
         if not read_since_set:
           res.counters["probe.two-assignments-without-a-read"] += 1
         read_since_set = False
-        events.append("value = %r" % (current,))
+        events.append("value = %s" % show(current))
         res.counters["op.assign"] += 1
       else:
         k = reads.pop(0)
@@ -730,12 +741,12 @@ class C16(Property):
         n[0] += k
         if k:
           read_since_set = True
-        events.append("take(%d) -> %r" % (k, want))
+        events.append("take(%d) -> %s" % (k, show(want)))
         res.counters["op.read"] += 1
         if got != want:
-          raise _Mismatch("value", "%s stream gave %r, most recently "
-                          "assigned value is %r (expected %r)"
-                          % (mode, got, current, want))
+          raise _Mismatch("value", "%s stream gave %s, most recently "
+                          "assigned value is %s (expected %s)"
+                          % (mode, show(got), show(current), show(want)))
     dgot = decoy.take(2)
     if dgot != [555, 555]:
       raise _Mismatch("second-instance", "a second, independent "
@@ -755,8 +766,8 @@ class C16(Property):
       want = [f(n[0] + j + 1, current) for j in range(2)]
       if got != want:
         raise _Mismatch("value-after-release", "after the ControlStream was "
-                        "released the derived stream gave %r, expected %r"
-                        % (got, want))
+                        "released the derived stream gave %s, expected %s"
+                        % (show(got), show(want)))
       res.counters["probe.controlstream-object-released"] += 1
     return {"late": late, "choices": choices}
 
